@@ -218,7 +218,7 @@ fn check_published(text: &str, published: &[Value], what: &str) -> Result<u64, F
 
 /// One session: the open document is changed to `t1`; then (if given) the document is closed
 /// without saving while the file holds `t2`, and opened again with `t2`.
-fn check_server(t1: &str, t2: Option<&str>, r: &mut CaseReport) {
+fn check_server(t1: &str, t2: Option<&str>, edits: Option<(u32, u32)>, r: &mut CaseReport) {
     use crate::lspc::{Lsp, LspError, Scratch};
     SERVER.with(|cell| {
         let mut cell = cell.borrow_mut();
@@ -248,7 +248,17 @@ fn check_server(t1: &str, t2: Option<&str>, r: &mut CaseReport) {
                 Ok(k) => n += k,
                 Err(f) => return Ok(Err(f)),
             }
-            if let Some(t2) = t2 {
+            if let (Some(t2), Some(pick)) = (t2, edits) {
+                // One didChange with two ranged changes in document order turns t1 into t2: the
+                // second range refers to the text the first change leaves.
+                let changes: Vec<(Option<((u32, u32), (u32, u32))>, String)> = crate::lspcheck::two_edits(t1, t2, pick).into_iter().map(|(rg, t)| (Some(rg), t)).collect();
+                lsp.did_change(&uri, &changes)?;
+                lsp.barrier(&uri)?;
+                match check_published(t2, lsp.diags.get(&uri).map(|v| v.as_slice()).unwrap_or(&[]), "after one didChange with two ranged changes in document order") {
+                    Ok(k) => n += k,
+                    Err(f) => return Ok(Err(f)),
+                }
+            } else if let Some(t2) = t2 {
                 dir.write("main.oal", t2);
                 lsp.did_close(&uri)?;
                 lsp.barrier(&uri)?;
@@ -358,7 +368,7 @@ impl Property for C16 {
         let space = seq_space(6, max_len(ctx.tier));
         if ctx.index >= space + n_random(ctx.tier) {
             let t1 = if tape.chance(1, 4) { random_text(tape) } else { server_text(tape) };
-            let t2 = if tape.chance(1, 2) { Some(if tape.chance(1, 4) { random_text(tape) } else { server_text(tape) }) } else { None };
+            let t2 = if tape.chance(2, 3) { Some(if tape.chance(1, 4) { random_text(tape) } else { server_text(tape) }) } else { None };
             let mut r = CaseReport::default();
             r.hash = {
                 use std::hash::{Hash, Hasher};
@@ -366,14 +376,15 @@ impl Property for C16 {
                 (&t1, &t2, 1u8).hash(&mut h);
                 h.finish()
             };
-            check_server(&t1, t2.as_deref(), &mut r);
+            let edits = if t2.is_some() && tape.chance(1, 2) { Some((tape.raw(), tape.raw())) } else { None };
+            check_server(&t1, t2.as_deref(), edits, &mut r);
             r.label("server-door");
             if t2.is_some() {
-                r.label("server-door:close-unsaved");
+                r.label(if edits.is_some() { "server-door:two-ranged-changes" } else { "server-door:close-unsaved" });
             }
             r.nontrivial = r.evaluations >= 1 && (t1.chars().any(|c| c.len_utf8() > 1) || t2.as_deref().map_or(false, |t| t.chars().any(|c| c.len_utf8() > 1)));
             if ctx.want_rendered || r.failure.is_some() {
-                r.rendered = Some(json!({"server": true, "t1": t1, "t2": t2}));
+                r.rendered = Some(json!({"server": true, "t1": t1, "t2": t2, "edits": edits}));
             }
             return r;
         }
@@ -411,7 +422,8 @@ impl Property for C16 {
     fn replay(&self, case: &Value) -> Option<Result<(), Failure>> {
         if case.get("server").is_some() {
             let mut r = CaseReport::default();
-            check_server(case.get("t1")?.as_str()?, case.get("t2").and_then(|t| t.as_str()), &mut r);
+            let edits: Option<(u32, u32)> = case.get("edits").and_then(|e| serde_json::from_value(e.clone()).ok()).flatten();
+            check_server(case.get("t1")?.as_str()?, case.get("t2").and_then(|t| t.as_str()), edits, &mut r);
             return Some(match r.failure {
                 Some(f) => Err(f),
                 None => Ok(()),
